@@ -396,7 +396,11 @@ func c02Cluster(c *Ctx) {
 			continue
 		}
 		for _, f := range it.Flags {
-			items = append(items, &Item{Kind: IFlag, Opt: f})
+			if f.T.IsFlag() {
+				items = append(items, &Item{Kind: IFlag, Opt: f})
+			} else {
+				items = append(items, &Item{Kind: IOptNoArg, Opt: f})
+			}
 		}
 		if it.Opt != nil && it.OptNoArg {
 			items = append(items, &Item{Kind: IOptNoArg, Opt: it.Opt})
